@@ -5,5 +5,5 @@ CONSTANT Ops <- AllOps
 CONSTANT FullThird = FALSE
 CONSTANT CrossTag = FALSE
 CONSTANT XCmp <- MutCmpMant
-INVARIANT SpellingFree
+INVARIANT TypeOK
 CHECK_DEADLOCK FALSE
